@@ -78,6 +78,7 @@ type Cfg struct {
 	// "assets" asset heavy with hostile amounts / senders / receivers.
 	Mode            string
 	DedicatedIncome bool // candidates' income addresses are accounts that never vote or transact
+	Fund            int64 // LEMO given to every user in the first block (0 = 2,000,000)
 }
 
 func DefaultCfg() Cfg {
@@ -114,7 +115,14 @@ func (g *Gen) Setup(t uint32) []Cand {
 	var out []Cand
 	exp := uint64(t) + 1000
 	for i, u := range g.W.Users {
-		amt := fx.LEMO(int64(2000000 + 1000*i))
+		fund := g.Cfg.Fund
+		if fund == 0 {
+			fund = 2000000
+		}
+		amt := fx.LEMO(fund + int64(200*i))
+		if g.Cfg.Fund == 0 {
+			amt = fx.LEMO(int64(2000000 + 1000*i))
+		}
 		out = append(out, g.cand(g.B.Transfer(g.W.Founder, u.Addr, amt, exp+uint64(i)), "fund", "ok"))
 	}
 	// zoo contracts deployed by the founder
